@@ -285,7 +285,12 @@ func (s MinPriorityCoinSelector) CoinSelect(targetValue bchutil.Amount, coins []
 				if newMaxInputs > numLow {
 					newMaxInputs = numLow
 				}
-				newMinAvgValueAge := ((s.MinAvgValueAgePerInput * int64(allHigh.Num()+numLow)) - allHigh.TotalValueAge()) / int64(numLow)
+				needValueAge := (s.MinAvgValueAgePerInput * int64(allHigh.Num()+numLow)) - allHigh.TotalValueAge()
+				newMinAvgValueAge := needValueAge / int64(numLow)
+				if needValueAge > 0 && needValueAge%int64(numLow) != 0 {
+					// round up so the combined average cannot fall short
+					newMinAvgValueAge++
+				}
 
 				// find the minimum priority that can be added to set
 				lowSelect, err := (&MinPriorityCoinSelector{
